@@ -26,7 +26,7 @@ pub fn def() -> CheckDef {
             real: super::REAL_COMPONENTS,
             stub: super::STUB_COMPONENTS,
         },
-        runs: |t| if t.thorough() { 12_000 } else { 400 },
+        runs: |t| if t.thorough() { 100_000 } else { 5_000 },
         run,
         execute,
         expected_probes: &["ops_delayed", "list_shuffled", "history_with_interrupt", "history_with_delete"],
